@@ -613,6 +613,10 @@ CaseResult run_dynamic(const RunCtx &ctx, TapeReader &t, unsigned size_hint) {
             if (!mem && s != model.size()) res.fail("final size() = " + std::to_string(s) + ", model " + std::to_string(model.size()));
         }
     }
+    if (mem) { // C17: the remaining public observers are executed too (results only consumed)
+        volatile size_t sink = dyn->size_in_bytes() + dyn->index_size_in_bytes();
+        (void) sink;
+    }
     {
         const unsigned used = Acc::used_levels(*dyn), minl = Acc::min_level(*dyn), mini = Acc::min_index_level(*dyn);
         if (used > minl + 1) saw_deep_merge = true;
